@@ -218,8 +218,8 @@ Proof.
   intros. unfold chachapoly_tag, chachapoly_tag_inc, poly1305_mac, chachapoly_mac_data.
   set (otk := poly1305_key_gen key nonce). set (r := poly_key_r otk).
   rewrite poly_update_padded. rewrite poly_update_padded.
-  (* the 16-byte length block: one chunk, both padding conventions coincide (by computation) *)
-  reflexivity.
+  (* the 16-byte length block is a single chunk on which both padding conventions coincide *)
+  f_equal.
 Qed.
 
 (* ---------- the generic tag is the Spec tag ---------- *)
